@@ -81,6 +81,8 @@ def frame_unit(kind, uid=None, prop="C09"):
                 ip.models[nm] = lambda ip_, pos, fn_: PyObj("bj_state0", position=pos, logdensity_fn=fn_)
         ms = z3.Const("given_state", U)
         if kind == "Gibbs":
+            from contracts.c07 import install_pytree_models
+            install_pytree_models(ip)
             ip.models["jax.numpy.result_type"] = lambda ip_, *a: ip_.uf("dtype_of", *[ip_.to_U(x) for x in a])
             ip.models["jax.numpy.asarray"] = lambda ip_, x, dtype=None, **kw: x if dtype is None else ip_.uf("cast", ip_.to_U(x), ip_.to_U(dtype))
             user = PyFn(lambda ip_, key, st: {k: ip_.uf("gibbs_draw_" + k, ip_.to_U(key), ip_.to_U(st)) for k in keys}, "transition_fn")
@@ -274,6 +276,8 @@ def u_builder_kernels(ip):
 # and a full update - same harness as C03's, on the shapes where a partial refresh shows (leaf node / direct consumer of a value node)
 from contracts.c03 import liesel_unit  # noqa: E402
 
+liesel_unit("pit", uid="C09.coherent_state.pit", prop="C09")  # a caching node class outside the Calc / Dist hierarchy (legacy PIT node)
+liesel_unit("optional", uid="C09.coherent_state.optional", prop="C09")
 liesel_unit("direct", uid="C09.coherent_state.direct", prop="C09")
 liesel_unit("weakdist", uid="C09.coherent_state.weakdist", prop="C09")
 liesel_unit("transformed", uid="C09.coherent_state.transformed", prop="C09")  # a derived quantity whose definition depends on ANOTHER block's parameter
@@ -288,3 +292,9 @@ from contracts.c10 import build_whole_unit  # noqa: E402
 
 build_whole_unit("C09.build_end_to_end", "C09", "A")
 build_whole_unit("C09.build_end_to_end.variant_b", "C09", "B")
+
+
+# the caching protocol this property's statement rests on (values and densities "after updating")
+from contracts.c01 import register_cache_core  # noqa: E402
+
+register_cache_core("C09")
